@@ -942,3 +942,764 @@ Proof.
   inversion Hf as [|? ? Hf1 Hf2]; subst. cbn [snd] in Hf1.
   destruct (Hstep Hf1) as (m' & E & Hm'). cbn [c02_monitor_from]. rewrite E. apply IH; auto.
 Qed.
+
+(* ================================================================== Part M6: C02 with Read By Type *)
+(* the session invariant in its general form: what is still to come completes what was collected *)
+Definition sess_inv (c : cfg) (s : session) : Prop :=
+  forall hs', exact_ok (required c (ss_kind s)) (matching c (ss_kind s) (ss_next s) (ss_hi s)) hs' = true ->
+              exact_ok (required c (ss_kind s)) (matching c (ss_kind s) (ss_lo0 s) (ss_hi s)) (ss_acc s ++ hs') = true.
+Definition mon_inv (c : cfg) (m : mon) : Prop := forall cid s, nth cid m None = Some s -> sess_inv c s.
+
+Lemma mon_inv_upd_none c m cid : mon_inv c m -> mon_inv c (upd m cid None).
+Proof.
+  intros H i s Hn. destruct (Nat.eq_dec cid i) as [->|Hne].
+  - destruct (Nat.lt_ge_cases i (length m)); [rewrite nth_upd_eq in Hn by auto; discriminate Hn|rewrite upd_out in Hn by auto; eapply H; eauto].
+  - rewrite nth_upd_neq in Hn by auto. eapply H; eauto.
+Qed.
+
+Lemma mon_inv_upd_some c m cid s : mon_inv c m -> sess_inv c s -> mon_inv c (upd m cid (Some s)).
+Proof.
+  intros H Hs i s' Hn. destruct (Nat.eq_dec cid i) as [->|Hne].
+  - destruct (Nat.lt_ge_cases i (length m)); [rewrite nth_upd_eq in Hn by auto; inversion Hn; subst; auto|rewrite upd_out in Hn by auto; eapply H; eauto].
+  - rewrite nth_upd_neq in Hn by auto. eapply H; eauto.
+Qed.
+
+Lemma mon_inv_init c : mon_inv c (repeat None n_conns).
+Proof. intros i s H. cbn in H. destruct i as [|[|[|[|i]]]]; discriminate H. Qed.
+
+Lemma continued_inv c m cid k lo hi lo0 acc :
+  mon_inv c m -> continued (nth cid m None) k lo hi = (lo0, acc) ->
+  forall hs', exact_ok (required c k) (matching c k lo hi) hs' = true ->
+              exact_ok (required c k) (matching c k lo0 hi) (acc ++ hs') = true.
+Proof.
+  intros Hm H. unfold continued in H. destruct (nth cid m None) as [s|] eqn:En.
+  - destruct (dkind_eqb (ss_kind s) k && (ss_hi s =? hi) && (ss_next s =? lo)) eqn:E.
+    + apply andb_true_iff in E. destruct E as [E E3]. apply andb_true_iff in E. destruct E as [E1 E2].
+      apply dkind_eqb_eq in E1. apply N.eqb_eq in E2, E3. inversion H; subst. apply (Hm _ _ En).
+    + inversion H; subst. intros hs' X. exact X.
+  - inversion H; subst. intros hs' X. exact X.
+Qed.
+
+Lemma exact_ok_none_required req (M : list (N * attr)) : none_required req M = true -> exact_ok req M [] = true.
+Proof.
+  induction M as [|[x a] t IH]; cbn [none_required forallb exact_ok snd]; [reflexivity|].
+  intros H. apply andb_true_iff in H. destruct H as [H1 H2]. rewrite H1. cbn [andb]. apply IH. exact H2.
+Qed.
+
+Lemma session_step_inv c m cid k lo hi p judge tnf ten :
+  mon_inv c m ->
+  match p with
+  | PError _ code => code = err_attribute_not_found /\ none_required (required c k) (matching c k lo hi) = true
+  | PEntries es =>
+      judge es = Ok
+      /\ (forall hs', exact_ok (required c k) (matching c k (last (map entry_end es) 0 + 1) hi) hs' = true ->
+                      exact_ok (required c k) (matching c k lo hi) (map entry_handle es ++ hs') = true)
+      /\ ((hi <=? last (map entry_end es) 0) || (65535 <=? last (map entry_end es) 0) = true ->
+          matching c k (last (map entry_end es) 0 + 1) hi = [])
+  | PBroken => False
+  end ->
+  exists m', session_step m cid k lo hi p judge (fun l => matching c k l hi) (required c k) tnf ten = (Ok, m') /\ mon_inv c m'.
+Proof.
+  intros Hm Hp. unfold session_step.
+  destruct (continued (nth cid m None) k lo hi) as [lo0 acc] eqn:Ec.
+  pose proof (continued_inv c m cid k lo hi lo0 acc Hm Ec) as Hc.
+  destruct p as [h code|es|]; [| |destruct Hp].
+  - destruct Hp as [-> Hp]. rewrite N.eqb_refl, Hp. cbn [andb]. unfold finish.
+    specialize (Hc [] (exact_ok_none_required _ _ Hp)). rewrite app_nil_r in Hc. rewrite Hc.
+    eexists. split; [reflexivity|]. apply mon_inv_upd_none; auto.
+  - destruct Hp as (Hj & Hp & Hend). rewrite Hj. cbv zeta.
+    destruct ((hi <=? last (map entry_end es) 0) || (65535 <=? last (map entry_end es) 0)) eqn:Ee.
+    + unfold finish. specialize (Hend eq_refl).
+      assert (X : exact_ok (required c k) (matching c k lo hi) (map entry_handle es ++ []) = true) by (apply Hp; rewrite Hend; reflexivity).
+      rewrite app_nil_r in X. rewrite (Hc _ X). eexists. split; [reflexivity|]. apply mon_inv_upd_none; auto.
+    + eexists. split; [reflexivity|]. apply mon_inv_upd_some; auto.
+      unfold sess_inv. cbn [ss_kind ss_lo0 ss_hi ss_next ss_acc]. intros hs' X. rewrite <- app_assoc. apply Hc. apply Hp. exact X.
+Qed.
+
+(* for the kinds where every matching attribute is required: from the handle lists *)
+Lemma exact_ok_all req (M : list (N * attr)) hs : (forall a, req a = true) -> exact_ok req M hs = true -> map fst M = hs.
+Proof.
+  intros Hr. revert hs; induction M as [|[x a] t IH]; intros hs H; cbn [exact_ok map fst] in *.
+  - destruct hs; [reflexivity|discriminate H].
+  - destruct hs as [|h hs']; [rewrite Hr in H; discriminate H|].
+    destruct (x =? h) eqn:E; [apply N.eqb_eq in E; subst; f_equal; apply IH; exact H|rewrite Hr in H; discriminate H].
+Qed.
+
+Lemma exact_ok_of_eq req (M : list (N * attr)) acc : map fst M = acc -> exact_ok req M acc = true.
+Proof.
+  revert acc; induction M as [|[x a] t IH]; intros acc H; cbn [map] in H; subst acc; cbn [exact_ok map fst]; [reflexivity|].
+  rewrite N.eqb_refl. apply IH. reflexivity.
+Qed.
+
+Lemma session_step_handles c (L : dkind -> list N) m cid k lo hi p judge tnf ten :
+  mon_inv c m -> (forall a, required c k a = true) ->
+  (forall l', map fst (matching c k l' hi) = hrange (L k) l' hi) ->
+  (forall h, In h (L k) -> h <= 65535) ->
+  match p with
+  | PError _ code => code = err_attribute_not_found /\ hrange (L k) lo hi = []
+  | PEntries es => judge es = Ok /\ hrange (L k) lo hi = map entry_handle es ++ hrange (L k) (last (map entry_end es) 0 + 1) hi
+  | PBroken => False
+  end ->
+  exists m', session_step m cid k lo hi p judge (fun l => matching c k l hi) (required c k) tnf ten = (Ok, m') /\ mon_inv c m'.
+Proof.
+  intros Hm Hr Hexp Hb Hp. apply session_step_inv; auto.
+  destruct p as [h code|es|]; [| |exact Hp].
+  - destruct Hp as [-> Hp]. split; [reflexivity|].
+    assert (X : matching c k lo hi = []) by (specialize (Hexp lo); rewrite Hp in Hexp; destruct (matching c k lo hi); [reflexivity|discriminate Hexp]).
+    rewrite X. reflexivity.
+  - destruct Hp as [Hj Hp]. split; [exact Hj|]. split.
+    + intros hs' X. apply (exact_ok_all _ _ _ Hr) in X. apply exact_ok_of_eq. rewrite Hexp, Hp, <- X, Hexp. reflexivity.
+    + intros Ee. pose proof (hrange_beyond (L k) hi _ Hb Ee) as X. rewrite <- Hexp in X.
+      destruct (matching c k (last (map entry_end es) 0 + 1) hi); [reflexivity|discriminate X].
+Qed.
+
+Lemma c02_info_step_inv c st m cid a b x y n st' resp :
+  wf c -> no_includes c -> all_16bit c = true -> mon_inv c m ->
+  a < 256 -> b < 256 -> x < 256 -> y < 256 ->
+  att_input c st cid [4; a; b; x; y] n = Some (st', resp) ->
+  exists m',
+    (if (w16 a b =? 0) || (w16 x y <? w16 a b) then (judge_invalid_range (w16 a b) (parse_resp 4 resp), upd m cid None)
+     else session_step m cid KInfo (w16 a b) (w16 x y) (parse_resp 4 resp) (judge_entries c KInfo (w16 a b) (w16 x y))
+            (fun l => matching c KInfo l (w16 x y)) (required c KInfo) dt_not_found dt_enumerate) = (Ok, m')
+    /\ mon_inv c m'.
+Proof.
+  intros Hw Hn Hu Hm Ha Hb Hx Hy Hin.
+  apply att_input_4 in Hin. destruct Hin as (k & b' & nn & Hk & Hout & Hh & Hnn & ->).
+  set (out_size := N.min n (negotiated_mtu c k)) in *.
+  assert (Hlb : out_size <= len (repeat fill_byte (N.to_nat n))) by (rewrite len_repeat_N; unfold out_size; lia).
+  rewrite takeN_seg by exact Hnn.
+  destruct ((w16 a b =? 0) || (w16 x y <? w16 a b)) eqn:Er.
+  - unfold handle_find_information in Hh.
+    rewrite (check_range_invalid c _ _ out_size 5 5 4 (w16 a b) (w16 x y)) in Hh; try reflexivity; [|left; reflexivity|exact Er].
+    destruct (error_response 4 err_invalid_handle (w16 a b) _ out_size) as [r|] eqn:Ee; [|discriminate Hh].
+    inversion Hh; subst r. apply error_response_bytes in Ee; auto; [|lia]. cbn [fst snd] in Ee. destruct Ee as (E1 & E2 & _).
+    subst nn. rewrite E2, parse_error_response. cbn [judge_invalid_range]. rewrite N.eqb_refl. cbn.
+    eexists. split; [reflexivity|]. apply mon_inv_upd_none; auto.
+  - assert (Hlo : 1 <= w16 a b) by lia. assert (Hhi : w16 a b <= w16 x y) by lia.
+    pose proof (find_information_spec c a b x y _ out_size (b', nn) Hw Hn Ha Hb Hx Hy Hlo Hhi Hout Hlb Hh) as Hsp.
+    unfold fi_response in Hsp. cbv zeta in Hsp. cbn [fst snd] in Hsp.
+    apply (session_step_handles c (L02 c) m cid KInfo); [exact Hm|intros ?; reflexivity| | |].
+    + intros l'. apply matching_info_handles; auto.
+    + intros h Hh'. eapply L02_bounded; eauto.
+    + cbn [L02]. destruct (from_handle (w16 a b) (table c)) as [|e W] eqn:Ef.
+      * destruct Hsp as [E1 E2]. subst nn. rewrite E2, parse_error_response. split; [reflexivity|].
+        rewrite <- matching_info_handles, matching_info, Ef by auto. reflexivity.
+      * destruct (fst e <=? w16 x y) eqn:Ex.
+        -- destruct Hsp as (_ & _ & E3). rewrite E3.
+           destruct (fi_answer c out_size (w16 a b) (w16 x y) e W Hw Hn Hout Hu Hlo Hhi Ef ltac:(lia)) as (F1 & F2 & F3).
+           assert (H16 : is16 (snd e) = true).
+           { unfold all_16bit in Hu. rewrite forallb_forall in Hu. apply Hu.
+             assert (X : In e (from_handle (w16 a b) (table c))) by (rewrite Ef; left; reflexivity). apply filter_In in X. tauto. }
+           rewrite H16 in *. rewrite (parse_fi_response c); auto.
+        -- destruct Hsp as [E1 E2]. subst nn. rewrite E2, parse_error_response. split; [reflexivity|].
+           rewrite <- matching_info_handles by auto. rewrite (matching_info_empty c _ _ e W) by (auto; lia). reflexivity.
+Qed.
+
+Lemma c02_group_step_inv c st m cid a b x y n st' resp :
+  wf c -> no_includes c -> mon_inv c m ->
+  a < 256 -> b < 256 -> x < 256 -> y < 256 ->
+  att_input c st cid [16; a; b; x; y; 0; 40] n = Some (st', resp) ->
+  exists m',
+    (if (w16 a b =? 0) || (w16 x y <? w16 a b) then (judge_invalid_range (w16 a b) (parse_resp 16 resp), upd m cid None)
+     else session_step m cid KGroup (w16 a b) (w16 x y) (parse_resp 16 resp) (judge_entries c KGroup (w16 a b) (w16 x y))
+            (fun l => matching c KGroup l (w16 x y)) (required c KGroup) dt_not_found dt_enumerate) = (Ok, m')
+    /\ mon_inv c m'.
+Proof.
+  intros Hw Hn Hm Ha Hb Hx Hy Hin.
+  apply att_input_16 in Hin. destruct Hin as (k & b' & nn & Hk & Hout & Hh & Hnn & ->).
+  set (out_size := N.min n (negotiated_mtu c k)) in *.
+  assert (Hlb : out_size <= len (repeat fill_byte (N.to_nat n))) by (rewrite len_repeat_N; unfold out_size; lia).
+  rewrite takeN_seg by exact Hnn.
+  destruct ((w16 a b =? 0) || (w16 x y <? w16 a b)) eqn:Er.
+  - unfold handle_read_by_group_type in Hh.
+    rewrite (check_range_invalid c _ _ out_size 7 21 16 (w16 a b) (w16 x y)) in Hh; try reflexivity; [|left; reflexivity|exact Er].
+    destruct (error_response 16 err_invalid_handle (w16 a b) _ out_size) as [r|] eqn:Ee; [|discriminate Hh].
+    inversion Hh; subst r. apply error_response_bytes in Ee; auto; [|lia]. cbn [fst snd] in Ee. destruct Ee as (E1 & E2 & _).
+    subst nn. rewrite E2, parse_error_response. cbn [judge_invalid_range]. rewrite N.eqb_refl. cbn.
+    eexists. split; [reflexivity|]. apply mon_inv_upd_none; auto.
+  - assert (Hlo : 1 <= w16 a b) by lia. assert (Hhi : w16 a b <= w16 x y) by lia.
+    pose proof (read_by_group_type_spec c a b x y _ out_size (b', nn) Hw Hn Ha Hb Hx Hy Hlo Hhi Hout Hlb Hh) as Hsp.
+    set (walk := fun lo hi => walk_first (groups c) lo hi (out_size - 2)).
+    assert (Hwalk : forall lo', exists rest, filter (selected_range (svc_sel None) lo' (w16 x y)) (groups c) = walk lo' (w16 x y) ++ rest
+                                  /\ (walk lo' (w16 x y) = [] -> filter (selected_range (svc_sel None) lo' (w16 x y)) (groups c) = [])).
+    { intros lo'. destruct (walk_first_spec (groups c) lo' (w16 x y) (out_size - 2) ltac:(lia)) as (rest & W1 & W2 & _).
+      exists rest. rewrite svc_sel_none_wanted. split; auto. }
+    pose proof (group_answer c None walk (w16 a b) (w16 x y) Hw Hn Hwalk Hlo Hhi) as Hans. cbv zeta in Hans.
+    rewrite <- primary_starts_sel in Hans.
+    destruct (walk_first_spec (groups c) (w16 a b) (w16 x y) (out_size - 2) ltac:(lia)) as (rest & W1 & W2 & W3).
+    unfold walk in Hans. unfold rbg_response in Hsp. cbn [fst snd] in Hsp.
+    apply (session_step_handles c (L02 c) m cid KGroup); [exact Hm|intros ?; reflexivity| | |].
+    + intros l'. apply matching_group_handles; auto.
+    + intros h Hh'. eapply L02_bounded; eauto.
+    + cbn [L02]. destruct (walk_first (groups c) (w16 a b) (w16 x y) (out_size - 2)) as [|g W'] eqn:Ew.
+      * destruct Hsp as [E1 E2]. subst nn. rewrite E2, parse_error_response. split; [reflexivity|exact Hans].
+      * destruct Hsp as (_ & _ & E3). rewrite E3.
+        rewrite (parse_rbg_response c (g :: W') (is_128bit (s_uuid (snd g)))); auto; [|discriminate|].
+        -- destruct Hans as [_ Hans]. split; [|exact Hans].
+           apply (judge_entries_groups c _ _ (g :: W') rest); auto. discriminate.
+        -- intros g' Hg'. split; [|apply W3; exact Hg'].
+           assert (X : In g' (filter (group_wanted (w16 a b) (w16 x y)) (groups c))) by (rewrite W1; apply in_or_app; left; exact Hg').
+           apply filter_In in X. tauto.
+Qed.
+
+(* ---- Read By Type on configurations where the attributes of one type have equal, state independent value lengths *)
+Definition slen (a : attr) : option N :=
+  match a with
+  | AService s => Some (len (uuid_bytes (s_uuid s)))
+  | AInclude _ => None
+  | ACharDecl _ ch => Some (3 + len (uuid_bytes (c_uuid ch)))
+  | AValue _ ch _ _ => match c_value ch with VFixed size _ => Some size | VString bs => Some (len bs) | _ => None end
+  | ACccd _ _ _ => Some 2
+  | AUserDesc n => Some (len n)
+  | ADesc _ v => Some (len v)
+  end.
+
+Lemma slen_erase a : slen (erase a) = slen a.
+Proof. destruct a; reflexivity. Qed.
+
+Lemma mem_read_0 mem m : mem_read mem 0 m = (Success, takeN (N.min m (len mem - 0)) (dropN 0 mem)).
+Proof. unfold mem_read. replace (len mem <? 0) with false by lia. reflexivity. Qed.
+
+Lemma mem_read_0_len mem m r d : mem_read mem 0 m = (r, d) -> len d = N.min (len mem) m.
+Proof.
+  rewrite mem_read_0. intros H. inversion H; subst. unfold len, takeN, dropN. cbn [N.to_nat skipn]. rewrite firstn_length. lia.
+Qed.
+
+Lemma fixed_bytes_len size v : len (fixed_bytes size v) = size.
+Proof. unfold fixed_bytes, len. rewrite map_length, seq_length. lia. Qed.
+
+Lemma access_read_slen c st cid a index m st' d L :
+  access_read c st cid a index 0 m = Some (st', Success, d) -> slen a = Some L -> len d = N.min L m.
+Proof.
+  unfold access_read. destruct (get_conn st cid) as [k|]; [|discriminate]. cbv zeta.
+  destruct a as [s|u|s ch|s ch g cci|s ch cci|nm|u v]; cbn [slen]; intros H HL.
+  - inversion HL; subst L. destruct (mem_read _ 0 m) as [r d'] eqn:E. inversion H; subst. eapply mem_read_0_len; eauto.
+  - discriminate HL.
+  - apply AttSrvProofsC01.some_inj in HL. subst L. unfold char_decl_value in H. cbv zeta in H. destruct (handle_by_index c (index + 1) =? invalid_handle); [discriminate|]. cbv iota beta in H.
+    destruct (mem_read _ 0 m) as [r d'] eqn:E. inversion H; subst. apply mem_read_0_len in E. rewrite E. f_equal.
+    unfold len, le16. cbn [length app]. lia.
+  - unfold value_read in H. destruct (security_check _ _ _); try discriminate H.
+    destruct (c_value ch) as [sz cst|sz v|bs|sz hrd hwr blob]; try discriminate HL; inversion HL; subst L.
+    + destruct (c_no_read ch); [discriminate H|]. destruct (mem_read _ 0 m) as [r d'] eqn:E. inversion H; subst.
+      apply mem_read_0_len in E. rewrite E, fixed_bytes_len. reflexivity.
+    + destruct (mem_read _ 0 m) as [r d'] eqn:E. inversion H; subst. eapply mem_read_0_len; eauto.
+  - inversion HL; subst L. destruct (security_check _ _ _); try discriminate H.
+    destruct (mem_read _ 0 m) as [r d'] eqn:E. inversion H; subst. apply mem_read_0_len in E. rewrite E. reflexivity.
+  - inversion HL; subst L. destruct (mem_read _ 0 m) as [r d'] eqn:E. inversion H; subst. eapply mem_read_0_len; eauto.
+  - inversion HL; subst L. destruct (mem_read _ 0 m) as [r d'] eqn:E. inversion H; subst. eapply mem_read_0_len; eauto.
+Qed.
+
+Definition same_len (x y : N * attr) : bool :=
+  negb (uuid_eqb (attr_type (snd x)) (attr_type (snd y))) || (fst x =? fst y)
+  || match slen (snd x), slen (snd y) with Some a, Some b => a =? b | _, _ => false end.
+Definition rbt_regular (c : cfg) : bool := forallb (fun x => forallb (same_len x) (table c)) (table c).
+
+Lemma rbt_regular_pair c ty x y :
+  rbt_regular c = true -> In x (table c) -> In y (table c) ->
+  type_matches (KType ty) (snd x) = true -> type_matches (KType ty) (snd y) = true -> fst x <> fst y ->
+  exists L, slen (snd x) = Some L /\ slen (snd y) = Some L.
+Proof.
+  intros Hr Hx Hy Tx Ty Hne. unfold rbt_regular in Hr. rewrite forallb_forall in Hr. specialize (Hr x Hx).
+  rewrite forallb_forall in Hr. specialize (Hr y Hy). unfold same_len in Hr. cbn [type_matches] in Tx, Ty.
+  apply uuid_eqb_eq in Tx, Ty. rewrite Tx, Ty, uuid_eqb_refl in Hr. cbn [negb orb] in Hr.
+  replace (fst x =? fst y) with false in Hr by (symmetry; apply N.eqb_neq; exact Hne). cbn [orb] in Hr.
+  destruct (slen (snd x)) as [a|]; [|discriminate Hr]. destruct (slen (snd y)) as [b|]; [|discriminate Hr].
+  apply N.eqb_eq in Hr. subst b. exists a. auto.
+Qed.
+
+Lemma col_inv_cur k E : col_inv k E -> co_cur k = 2 + len (flat_map ebytes E).
+Proof. intros (I1 & I2 & _). rewrite <- I2, seg_len. lia. Qed.
+
+Lemma ebytes_app_len E x : len (flat_map ebytes (E ++ [x])) = len (flat_map ebytes E) + 2 + len (snd x).
+Proof. rewrite flat_map_app. cbn [flat_map]. rewrite app_nil_r. unfold len, ebytes, le16. rewrite !app_length. cbn [length]. lia. Qed.
+
+(* one attribute offered to the collector: collected, or not collected for one of three reasons *)
+Lemma collect_attribute_cases c st cid k e index a st' k' E :
+  collect_attribute c st cid k e index a = Some (st', k') ->
+  col_inv k E -> co_cur k <= e -> e <= len (co_buf k) ->
+  conns st' = conns st /\ co_cur k' <= e /\ len (co_buf k') = len (co_buf k)
+  /\ ((exists d0 d st1, col_inv k' (E ++ [(handle_by_index c index, d0)])
+         /\ access_read c st cid a index 0 (N.min (e - co_cur k) 255 - 2) = Some (st1, Success, d)
+         /\ 2 <= e - co_cur k /\ (co_first k = false -> len d + 2 = co_size k))
+      \/ (col_inv k' E /\ co_cur k' = co_cur k /\ co_first k' = co_first k /\ (co_first k = false -> co_size k' = co_size k)
+          /\ (e - co_cur k < 2
+              \/ (exists st1 rc d, access_read c st cid a index 0 (N.min (e - co_cur k) 255 - 2) = Some (st1, rc, d) /\ rc <> Success)
+              \/ (co_first k = false /\ exists st1 d, access_read c st cid a index 0 (N.min (e - co_cur k) 255 - 2) = Some (st1, Success, d)
+                                                     /\ len d + 2 <> co_size k)))).
+Proof.
+  intros H Hinv Hc He.
+  destruct (collect_attribute_step _ _ _ _ _ _ _ _ _ E H Hinv Hc He) as (S1 & S2 & S3).
+  destruct (collect_attribute_first _ _ _ _ _ _ _ _ _ H) as (C1 & _).
+  split; [exact C1|]. split; [exact S1|]. split; [exact S2|].
+  pose proof (col_inv_cur k E Hinv) as Hcur.
+  assert (Hsame : forall X : unit, co_cur k' = co_cur k -> (col_inv k' E \/ exists d, col_inv k' (E ++ [(handle_by_index c index, d)])) -> col_inv k' E).
+  { intros _ Hk [X|[d X]]; [exact X|]. apply col_inv_cur in X. rewrite ebytes_app_len in X. lia. }
+  assert (Hmore : forall d : list N, co_cur k' = co_cur k + 2 + len d -> (col_inv k' E \/ exists d0, col_inv k' (E ++ [(handle_by_index c index, d0)])) ->
+                  exists d0, col_inv k' (E ++ [(handle_by_index c index, d0)])).
+  { intros d Hk [X|X]; [|exact X]. apply col_inv_cur in X. lia. }
+  unfold collect_attribute in H.
+  destruct (2 <=? e - co_cur k) eqn:E2.
+  - cbv zeta in H. destruct (access_read c st cid a index 0 _) as [[[st1 rc] d]|] eqn:Ea; [|discriminate].
+    destruct rc.
+    + destruct (253 <? len d) eqn:E253; [discriminate|].
+      destruct (put (co_buf k) (co_cur k + 2) d) as [b1|] eqn:P1; [|discriminate].
+      assert (Hmod : (len d + 2) mod 256 = len d + 2) by (apply N.mod_small; lia).
+      assert (Hmod' : len d mod 256 = len d) by (apply N.mod_small; lia).
+      destruct (len d + 2 =? (if co_first k then (len d + 2) mod 256 else co_size k)) eqn:Es.
+      * destruct (put b1 (co_cur k) _) as [b2|]; [|discriminate]. inversion H; subst st' k'. cbn [co_cur co_first co_size] in *.
+        rewrite Hmod' in *.
+        left. destruct (Hmore d ltac:(lia) S3) as [d0 X]. exists d0, d, st1.
+        split; [exact X|]. split; [reflexivity|]. split; [lia|].
+        intros Hf. rewrite Hf in Es. lia.
+      * inversion H; subst st' k'. cbn [co_cur co_first co_size] in *. right.
+        assert (Hnf : co_first k = false) by (destruct (co_first k); [lia|reflexivity]). rewrite Hnf in *.
+        split; [apply (Hsame tt); auto|]. repeat split; auto.
+        right. right. split; [reflexivity|]. exists st1, d. split; [reflexivity|lia].
+    + inversion H; subst st' k'. right. split; [apply (Hsame tt); auto|]. repeat split; auto.
+      right. left. exists st1, (Err code), d. split; [reflexivity|discriminate].
+    + inversion H; subst st' k'. right. split; [apply (Hsame tt); auto|]. repeat split; auto.
+      right. left. exists st1, ValueEqual, d. split; [reflexivity|discriminate].
+  - inversion H; subst st' k'. right. split; [apply (Hsame tt); auto|]. repeat split; auto. left. lia.
+Qed.
+
+(* ---- exact_ok over processed prefixes *)
+Lemma exact_ok_handles req (M : list (N * attr)) hs : exact_ok req M hs = true -> forall h, In h hs -> In h (map fst M).
+Proof.
+  revert hs; induction M as [|[x a] t IH]; intros hs H h Hh; cbn [exact_ok] in H.
+  - destruct hs; [destruct Hh|discriminate H].
+  - destruct hs as [|h0 hs']; [destruct Hh|]. cbn [map fst]. destruct (x =? h0) eqn:E.
+    + apply N.eqb_eq in E. subst. destruct Hh as [<-|Hh]; [left; reflexivity|right; eapply IH; eauto].
+    + apply andb_true_iff in H. destruct H as [_ H]. right. eapply IH; eauto.
+Qed.
+
+Lemma exact_ok_app req (A B : list (N * attr)) hs hs2 :
+  exact_ok req A hs = true -> (forall y h, In y A -> In h hs2 -> fst y <> h) ->
+  exact_ok req (A ++ B) (hs ++ hs2) = exact_ok req B hs2.
+Proof.
+  revert hs; induction A as [|[x a] t IH]; intros hs H Hd; cbn [exact_ok app] in *.
+  - destruct hs; [reflexivity|discriminate H].
+  - destruct hs as [|h hs'].
+    + apply andb_true_iff in H. destruct H as [H1 H2]. cbn [app].
+      destruct hs2 as [|h2 t2].
+      * rewrite H1. cbn [andb]. apply (IH [] H2). intros; eapply Hd; eauto. right; auto.
+      * replace (x =? h2) with false by (symmetry; apply N.eqb_neq; apply (Hd (x, a) h2); left; reflexivity).
+        rewrite H1. cbn [andb]. apply (IH [] H2). intros y h Hy Hh. apply Hd; auto. right; auto.
+    + cbn [app]. destruct (x =? h).
+      * apply IH; auto. intros; eapply Hd; eauto. right; auto.
+      * apply andb_true_iff in H. destruct H as [H1 H2]. rewrite H1. cbn [andb]. apply (IH (h :: hs') H2). intros; eapply Hd; eauto. right; auto.
+Qed.
+
+Lemma exact_ok_skip_all req (P : list (N * attr)) h a :
+  (forall y, In y P -> req (snd y) = false /\ fst y <> h) -> exact_ok req (P ++ [(h, a)]) [h] = true.
+Proof.
+  induction P as [|[x b] t IH]; intros H; cbn [app exact_ok].
+  - rewrite N.eqb_refl. reflexivity.
+  - destruct (H (x, b) ltac:(left; reflexivity)) as [H1 H2]. cbn [fst snd] in *.
+    replace (x =? h) with false by (symmetry; apply N.eqb_neq; exact H2). rewrite H1. cbn [negb andb].
+    apply IH. intros y Hy. apply H. right. exact Hy.
+Qed.
+
+Lemma run_ok_of_exact req (A B : list (N * attr)) hs : exact_ok req A hs = true -> run_ok req (A ++ B) hs = true.
+Proof.
+  revert hs; induction A as [|[x a] t IH]; intros hs H; cbn [exact_ok app] in *.
+  - destruct hs; [destruct B as [|[? ?] ?]; reflexivity|discriminate H].
+  - destruct hs as [|h hs']; [reflexivity|]. cbn [run_ok]. destruct (x =? h); [apply IH; exact H|].
+    apply andb_true_iff in H. destruct H as [H1 H2]. rewrite H1. cbn [andb]. apply IH. exact H2.
+Qed.
+
+(* why an attribute was not collected although nothing behind it is excluded *)
+Definition skip_ok (c : cfg) (e : N) (k : collect) (y : N * attr) : Prop :=
+  readable c (snd y) = false
+  \/ (co_first k = false /\ forall L, slen (snd y) = Some L ->
+        e - co_cur k < 2 \/ N.min L (N.min (e - co_cur k) 255 - 2) + 2 <> co_size k).
+
+Definition wanted_type (ty : uuid) (eh : N) (x : N * attr) : bool := (fst x <=? eh) && type_matches (KType ty) (snd x).
+
+(* the processed attributes of the requested type: P1 up to the last collected one, P2 behind it *)
+Record cover (c : cfg) (ty : uuid) (e : N) (k : collect) (E : list (N * list N)) (P1 P2 : list (N * attr)) : Prop := mkCover {
+  cv_exact : exact_ok (readable c) P1 (map fst E) = true;
+  cv_low : forall y, In y P1 -> fst y <= last (map fst E) 0;
+  cv_high : forall y, In y P2 -> last (map fst E) 0 < fst y;
+  cv_skip : forall y, In y P2 -> skip_ok c e k y;
+  cv_table : forall y, In y (P1 ++ P2) -> In y (table c) /\ type_matches (KType ty) (snd y) = true;
+  cv_none : E = [] -> P1 = [] }.
+
+Lemma aa_cover c cid f e eh ty : wf c -> no_includes c -> rbt_regular c = true -> 23 <= e ->
+  (forall a, uuid_filter_match f a = type_matches (KType ty) (erase a)) ->
+  forall fuel st k index st' k' kk E P1 P2,
+  all_attributes fuel c st cid f k e index (last_handle_index c eh) eh = Some (st', k') ->
+  get_conn st cid = Some kk ->
+  (N.to_nat (number_of_attributes c - index) < fuel)%nat ->
+  col_inv k E -> co_cur k <= e -> e <= len (co_buf k) ->
+  cover c ty e k E P1 P2 ->
+  (forall y z, In y (P1 ++ P2) -> In z (skipn (N.to_nat index) (table c)) -> fst y < fst z) ->
+  exists E' P1' P2',
+    col_inv k' E' /\ co_cur k' <= e /\ len (co_buf k') = len (co_buf k)
+    /\ cover c ty e k' E' P1' P2'
+    /\ P1' ++ P2' = P1 ++ P2 ++ filter (wanted_type ty eh) (skipn (N.to_nat index) (table c)).
+Proof.
+  intros Hw Hn Hreg He23 Hf. induction fuel as [|n IH]; intros st k index st' k' kk E P1 P2 H Hk Hfu Hinv Hc He Hcov Hlt; [lia|].
+  cbn [all_attributes] in H.
+  destruct (index <? number_of_attributes c) eqn:Ei.
+  - destruct (table_step c index Hw Hn ltac:(lia)) as (a & Ha & Hsk & Hin). rewrite Hsk in *. cbn [filter].
+    set (x := (handle_by_index c index, erase a)) in *.
+    assert (Hxt : In x (table c)) by (rewrite <- (firstn_skipn (N.to_nat index) (table c)), Hsk; apply in_or_app; right; left; reflexivity).
+    assert (Hlt' : forall y z, In y (P1 ++ P2) -> In z (skipn (N.to_nat (index + 1)) (table c)) -> fst y < fst z)
+      by (intros y z Hy Hz; apply Hlt; auto; right; exact Hz).
+    assert (Hxz : forall z, In z (skipn (N.to_nat (index + 1)) (table c)) -> fst x < fst z)
+      by (intros z Hz; apply (skipn_table_sorted c _ _ _ Hw Hn Hsk z Hz)).
+    destruct ((index <=? last_handle_index c eh) && (handle_by_index c index <=? eh)) eqn:Ec.
+    + rewrite Ha in H. apply andb_true_iff in Ec. destruct Ec as [_ Ec].
+      unfold wanted_type at 1. change (fst x) with (handle_by_index c index). change (snd x) with (erase a).
+      rewrite Ec. cbn [andb]. rewrite <- Hf.
+      destruct (uuid_filter_match f a) eqn:Em.
+      * destruct (collect_attribute c st cid k e index a) as [[st1 k1]|] eqn:Eca; [|discriminate].
+        destruct (collect_attribute_cases _ _ _ _ _ _ _ _ _ E Eca Hinv Hc He) as (C1 & C2 & C3 & Ccase).
+        assert (Hk1 : get_conn st1 cid = Some kk) by (rewrite (get_conn_conns _ _ _ C1); exact Hk).
+        assert (Hxty : type_matches (KType ty) (snd x) = true) by (unfold x; cbn [snd]; rewrite <- Hf; exact Em).
+        destruct Ccase as [(d0 & d & s1 & Cinv & Cread & Croom & Csize)|(Cinv & Ccur & Cfirst & Csz & Creason)].
+        -- (* collected: everything skipped since the last collected one cannot be read *)
+           assert (HP2 : forall y, In y P2 -> readable c (snd y) = false /\ fst y <> fst x).
+           { intros y Hy. split; [|assert (fst y < fst x) by (apply Hlt; [apply in_or_app; right; exact Hy|left; reflexivity]); lia].
+             destruct (cv_skip _ _ _ _ _ _ _ Hcov y Hy) as [Hr|[Hfirst Hlen]]; [exact Hr|exfalso].
+             destruct (cv_table _ _ _ _ _ _ _ Hcov y ltac:(apply in_or_app; right; exact Hy)) as [Hyt Hyty].
+             assert (Hne : fst y <> fst x) by (assert (fst y < fst x) by (apply Hlt; [apply in_or_app; right; exact Hy|left; reflexivity]); lia).
+             destruct (rbt_regular_pair c ty y x Hreg Hyt Hxt Hyty Hxty Hne) as (L & Ly & Lx).
+             unfold x in Lx. cbn [snd] in Lx. rewrite slen_erase in Lx.
+             pose proof (access_read_slen _ _ _ _ _ _ _ _ _ Cread Lx) as Hd.
+             specialize (Csize Hfirst). destruct (Hlen L Ly) as [X|X]; lia. }
+           assert (Hcov1 : cover c ty e k1 (E ++ [(handle_by_index c index, d0)]) (P1 ++ P2 ++ [x]) []).
+           { assert (Hlast : last (map fst (E ++ [(handle_by_index c index, d0)])) 0 = fst x).
+             { rewrite map_app. cbn [map fst]. clear. induction (map fst E) as [|h t IHl]; [reflexivity|].
+               destruct t; [reflexivity|]. exact IHl. }
+             constructor.
+             - rewrite map_app. cbn [map fst]. rewrite exact_ok_app.
+               + apply exact_ok_skip_all. exact HP2.
+               + apply (cv_exact _ _ _ _ _ _ _ Hcov).
+               + intros y h Hy [<-|[]]. assert (fst y < fst x) by (apply Hlt; [apply in_or_app; left; exact Hy|left; reflexivity]). unfold x in *. cbn [fst] in *. lia.
+             - intros y Hy. rewrite Hlast. apply in_app_or in Hy. destruct Hy as [Hy|Hy].
+               + assert (fst y < fst x) by (apply Hlt; [apply in_or_app; left; exact Hy|left; reflexivity]). lia.
+               + apply in_app_or in Hy. destruct Hy as [Hy|[<-|[]]]; [|lia].
+                 assert (fst y < fst x) by (apply Hlt; [apply in_or_app; right; exact Hy|left; reflexivity]). lia.
+             - intros y [].
+             - intros y [].
+             - intros y Hy. rewrite app_nil_r in Hy. apply in_app_or in Hy. destruct Hy as [Hy|Hy].
+               + apply (cv_table _ _ _ _ _ _ _ Hcov). apply in_or_app. left. exact Hy.
+               + apply in_app_or in Hy. destruct Hy as [Hy|[<-|[]]]; [|split; auto].
+                 apply (cv_table _ _ _ _ _ _ _ Hcov). apply in_or_app. right. exact Hy.
+             - intros X. destruct E; discriminate X. }
+           assert (Hlt1 : forall y z, In y ((P1 ++ P2 ++ [x]) ++ []) -> In z (skipn (N.to_nat (index + 1)) (table c)) -> fst y < fst z).
+           { intros y z Hy Hz. rewrite app_nil_r in Hy. apply in_app_or in Hy. destruct Hy as [Hy|Hy].
+             - apply Hlt'; auto. apply in_or_app. left. exact Hy.
+             - apply in_app_or in Hy. destruct Hy as [Hy|[<-|[]]]; [|apply Hxz; exact Hz]. apply Hlt'; auto. apply in_or_app. right. exact Hy. }
+           destruct (IH _ _ _ _ _ _ _ _ _ H Hk1 ltac:(lia) Cinv C2 ltac:(lia) Hcov1 Hlt1) as (E' & P1' & P2' & R1 & R2 & R3 & R4 & R5).
+           exists E', P1', P2'. split; [exact R1|]. split; [exact R2|]. split; [lia|]. split; [exact R4|].
+           rewrite R5. cbn [app]. rewrite <- !app_assoc. reflexivity.
+        -- (* not collected *)
+           assert (Hskx : skip_ok c e k1 x).
+           { destruct Creason as [Hroom|[(s1 & rc & d & Hr1 & Hr2)|(Hff & s1 & d & Hr1 & Hr2)]].
+             - right. assert (Hnf : co_first k = false).
+               { destruct (co_first k) eqn:Ef; [|reflexivity]. pose proof (col_inv_cur k E Hinv) as X. destruct Hinv as (_ & _ & I3 & _).
+                 rewrite (I3 Ef) in X. cbn in X. lia. }
+               split; [congruence|]. intros L _. left. lia.
+             - left. destruct (readable c (snd x)) eqn:Er; [|reflexivity]. exfalso.
+               destruct (access_read_readable c st cid kk a index (N.min (e - co_cur k) 255 - 2) Hw Hn Ha Er Hk) as (s2 & d2 & Hacc & _).
+               rewrite Hacc in Hr1. inversion Hr1; subst. apply Hr2. reflexivity.
+             - right. split; [congruence|]. intros L HL. right. unfold x in HL. cbn [snd] in HL. rewrite slen_erase in HL.
+               pose proof (access_read_slen _ _ _ _ _ _ _ _ _ Hr1 HL) as Hd. rewrite Ccur, (Csz Hff). lia. }
+           assert (Hcov1 : cover c ty e k1 E P1 (P2 ++ [x])).
+           { constructor.
+             - apply (cv_exact _ _ _ _ _ _ _ Hcov).
+             - apply (cv_low _ _ _ _ _ _ _ Hcov).
+             - intros y Hy. apply in_app_or in Hy. destruct Hy as [Hy|[<-|[]]]; [apply (cv_high _ _ _ _ _ _ _ Hcov); exact Hy|].
+               destruct (map fst E) as [|h0 t0] eqn:EE.
+               + cbn [last]. assert (0 < fst x); [|lia]. pose proof (table_sorted c Hw Hn) as Hs.
+                 apply (increasing_from_lower 0 _ _ Hs). apply in_map. exact Hxt.
+               + assert (Hl : In (last (h0 :: t0) 0) (map fst P1)).
+                 { apply (exact_ok_handles _ _ _ (cv_exact _ _ _ _ _ _ _ Hcov)). rewrite EE. apply last_in. discriminate. }
+                 apply in_map_iff in Hl. destruct Hl as [y [Hy1 Hy2]]. rewrite <- Hy1.
+                 apply Hlt; [apply in_or_app; left; exact Hy2|left; reflexivity].
+             - intros y Hy. apply in_app_or in Hy. destruct Hy as [Hy|[<-|[]]]; [|exact Hskx].
+               destruct (cv_skip _ _ _ _ _ _ _ Hcov y Hy) as [Hr|[Hff Hlen]]; [left; exact Hr|right].
+               split; [congruence|]. intros L HL. rewrite Ccur, (Csz Hff). apply Hlen. exact HL.
+             - intros y Hy. rewrite app_assoc in Hy. apply in_app_or in Hy. destruct Hy as [Hy|[<-|[]]]; [|split; auto].
+               apply (cv_table _ _ _ _ _ _ _ Hcov). exact Hy.
+             - apply (cv_none _ _ _ _ _ _ _ Hcov). }
+           assert (Hlt1 : forall y z, In y (P1 ++ P2 ++ [x]) -> In z (skipn (N.to_nat (index + 1)) (table c)) -> fst y < fst z).
+           { intros y z Hy Hz. rewrite app_assoc in Hy. apply in_app_or in Hy. destruct Hy as [Hy|[<-|[]]]; [apply Hlt'; auto|apply Hxz; exact Hz]. }
+           destruct (IH _ _ _ _ _ _ _ _ _ H Hk1 ltac:(lia) Cinv C2 ltac:(lia) Hcov1 Hlt1) as (E' & P1' & P2' & R1 & R2 & R3 & R4 & R5).
+           exists E', P1', P2'. split; [exact R1|]. split; [exact R2|]. split; [lia|]. split; [exact R4|].
+           rewrite R5. cbn [app]. rewrite <- !app_assoc. reflexivity.
+      * (* another type *)
+        destruct (IH _ _ _ _ _ _ _ _ _ H Hk ltac:(lia) Hinv Hc He Hcov Hlt') as (E' & P1' & P2' & R1 & R2 & R3 & R4 & R5).
+        exists E', P1', P2'. split; [exact R1|]. split; [exact R2|]. split; [exact R3|]. split; [exact R4|]. exact R5.
+    + (* the scan ends: everything behind lies behind the ending handle *)
+      inversion H; subst st' k'. exists E, P1, P2. split; [exact Hinv|]. split; [exact Hc|]. split; [reflexivity|]. split; [exact Hcov|].
+      assert (Hgt : eh < handle_by_index c index).
+      { apply andb_false_iff in Ec. destruct Ec as [Ec|Ec]; [|lia].
+        destruct (handle_by_index c index <=? eh) eqn:E0; [|lia].
+        pose proof (last_index_covers c eh index Hw Hn ltac:(lia) ltac:(lia)). lia. }
+      unfold wanted_type at 1. change (fst x) with (handle_by_index c index). replace (handle_by_index c index <=? eh) with false by lia. cbn [andb].
+      rewrite (filter_all_false _ (skipn (N.to_nat (index + 1)) (table c))); [rewrite app_nil_r; reflexivity|].
+      intros z Hz. specialize (Hxz z Hz). unfold x in Hxz. cbn [fst] in Hxz. unfold wanted_type. replace (fst z <=? eh) with false by lia. reflexivity.
+  - rewrite table_end by (auto; lia). cbn [filter]. rewrite !app_nil_r.
+    destruct ((index <=? last_handle_index c eh) && (handle_by_index c index <=? eh)).
+    + rewrite attribute_at_beyond in H by lia. discriminate H.
+    + inversion H; subst st' k'. exists E, P1, P2. split; [exact Hinv|]. split; [exact Hc|]. split; [reflexivity|]. split; [exact Hcov|]. reflexivity.
+Qed.
+
+Lemma matching_narrow c k lo hi lo' : lo <= lo' -> matching c k lo' hi = filter (fun x => lo' <=? fst x) (matching c k lo hi).
+Proof.
+  intros H. unfold matching. rewrite filter_filter. apply filter_ext_in'. intros x _. unfold in_range.
+  destruct (lo' <=? fst x) eqn:E1, (lo <=? fst x) eqn:E2, (fst x <=? hi) eqn:E3; cbn [andb]; try reflexivity; try lia.
+  all: rewrite ?andb_true_r, ?andb_false_r; reflexivity.
+Qed.
+
+Lemma exact_ok_subseq req (M : list (N * attr)) hs : exact_ok req M hs = true -> subseq hs (map fst M).
+Proof.
+  revert hs; induction M as [|[x a] t IH]; intros hs H; cbn [exact_ok map fst] in *.
+  - destruct hs; [constructor|discriminate H].
+  - destruct hs as [|h hs']; [constructor|]. destruct (x =? h) eqn:E.
+    + apply N.eqb_eq in E. subst. apply sub_take. apply IH. exact H.
+    + apply andb_true_iff in H. destruct H as [_ H]. apply sub_skip. apply IH. exact H.
+Qed.
+
+Definition ehandle (e : N * list N) : entry := EHandle (fst e).
+
+Lemma parse_rbt_response (E : list (N * list N)) sz :
+  E <> [] -> (forall x, In x E -> len (snd x) + 2 = sz /\ fst x < 65536) ->
+  parse_resp 8 (9 :: sz :: flat_map ebytes E) = PEntries (map ehandle E).
+Proof.
+  intros Hne HE.
+  assert (Hsz : 2 <= sz) by (destruct E as [|x t]; [congruence|]; destruct (HE x ltac:(left; reflexivity)); lia).
+  assert (Hlen : forall x, In x E -> length (ebytes x) = N.to_nat sz).
+  { intros x Hx. destruct (HE x Hx) as [H1 _]. unfold ebytes, le16, len in *. cbn [app length]. lia. }
+  assert (Hmap : map (fun ch => EHandle (w16 (nth 0 ch 0) (nth 1 ch 0))) (map ebytes E) = map ehandle E).
+  { rewrite map_map. apply map_ext_in. intros x Hx. destruct (HE x Hx) as [_ H2]. unfold ebytes, ehandle, le16. cbn [app nth].
+    rewrite w16_le16 by exact H2. reflexivity. }
+  unfold parse_resp. lazy beta iota delta [N.eqb N.add Pos.eqb Pos.add Pos.succ negb orb].
+  replace (sz <? 2) with false by lia. unfold parse_entries.
+  rewrite (chunks_flat_map _ ebytes (N.to_nat sz) E) by (auto; lia). rewrite Hmap. reflexivity.
+Qed.
+
+Lemma att_input_8 c st cid t n st' resp :
+  att_input c st cid (8 :: t) n = Some (st', resp) ->
+  exists k b' nn, get_conn st cid = Some k /\ 23 <= N.min n (negotiated_mtu c k)
+    /\ handle_read_by_type c st cid (8 :: t) (repeat fill_byte (N.to_nat n)) (N.min n (negotiated_mtu c k)) = Some (st', (b', nn))
+    /\ nn <= len b' /\ resp = takeN nn b'.
+Proof.
+  unfold att_input. destruct (get_conn st cid) as [k|]; [|discriminate]. cbv zeta.
+  destruct (len (8 :: t) =? 0); [discriminate|].
+  destruct (N.min n (negotiated_mtu c k) <? default_att_mtu) eqn:E; [discriminate|].
+  change (rd (8 :: t) 0) with (Some 8). cbn [N.eqb Pos.eqb].
+  destruct (handle_read_by_type c st cid (8 :: t) _ _) as [[st1 [b' nn]]|] eqn:Eh; [|discriminate].
+  destruct (nn <=? len b') eqn:En; [|discriminate]. intros H. inversion H; subst.
+  exists k, b', nn. unfold default_att_mtu in E. repeat split; auto; lia.
+Qed.
+
+Lemma last_app_single (l : list N) x d : last (l ++ [x]) d = x.
+Proof. induction l as [|h t IH]; [reflexivity|]. destruct t; [reflexivity|]. exact IH. Qed.
+
+(* the Read By Type answer, as the monitor needs it *)
+Lemma rbt_answer c st cid kk a0 a1 x0 x1 tyb ty b out_size st' r :
+  wf c -> no_includes c -> rbt_regular c = true -> get_conn st cid = Some kk ->
+  a0 < 256 -> a1 < 256 -> x0 < 256 -> x1 < 256 ->
+  req_type tyb = Some ty -> ty <> U16 internal_128bit_uuid ->
+  let lo := w16 a0 a1 in let hi := w16 x0 x1 in
+  1 <= lo -> lo <= hi -> 23 <= out_size -> out_size <= 257 -> out_size <= len b ->
+  handle_read_by_type c st cid (8 :: a0 :: a1 :: x0 :: x1 :: tyb) b out_size = Some (st', r) ->
+  let M := fun l => matching c (KType ty) l hi in
+  (snd r = 5 /\ seg 0 5 (fst r) = [1; 8; a0; a1; 10] /\ none_required (readable c) (M lo) = true)
+  \/ (exists E sz, E <> [] /\ (forall x, In x E -> len (snd x) + 2 = sz /\ fst x < 65536)
+        /\ snd r <= len (fst r) /\ seg 0 (snd r) (fst r) = 9 :: sz :: flat_map ebytes E
+        /\ judge_entries c (KType ty) lo hi (map ehandle E) = Ok
+        /\ (forall hs', exact_ok (readable c) (M (last (map fst E) 0 + 1)) hs' = true ->
+                        exact_ok (readable c) (M lo) (map fst E ++ hs') = true)
+        /\ ((hi <=? last (map fst E) 0) || (65535 <=? last (map fst E) 0) = true -> M (last (map fst E) 0 + 1) = [])).
+Proof.
+  intros Hw Hn Hreg Hk Ha0 Ha1 Hx0 Hx1 Hty Hne lo hi Hlo Hhi Ho Ho2 Hb H M.
+  destruct (make_filter_spec a0 a1 x0 x1 tyb ty Hty Hne) as (Hlen & f & Hmk & Hf). cbv zeta in Hlen, Hmk.
+  unfold handle_read_by_type, check_size_and_handle_range in H.
+  destruct (rd_prefix5 8 a0 a1 x0 x1 tyb) as (R0 & R1 & R3). cbv zeta in R0, R1, R3.
+  set (pdu := 8 :: a0 :: a1 :: x0 :: x1 :: tyb) in *.
+  rewrite R0 in H. cbv iota beta in H.
+  replace (negb (len pdu =? 7) && negb (len pdu =? 21)) with false in H by (destruct Hlen as [-> | ->]; reflexivity).
+  rewrite R1, R3 in H. cbv iota beta in H. fold (w16 a0 a1) in H. fold (w16 x0 x1) in H. fold lo in H. fold hi in H.
+  replace ((lo =? 0) || (hi <? lo)) with false in H by lia.
+  destruct (from_first_index c lo Hw Hn) as [F1 F2].
+  assert (HM : M lo = filter (wanted_type ty hi) (from_handle lo (table c))) by (unfold M; rewrite matching_type; reflexivity).
+  destruct (first_index_by_handle c lo =? invalid_index) eqn:Efi.
+  - destruct (error_response 8 err_attribute_not_found lo b out_size) as [r'|] eqn:Ee; [|discriminate].
+    inversion H; subst st' r'. apply error_response_bytes in Ee; auto; [|lia]. left.
+    apply N.eqb_eq in Efi. rewrite HM, (F1 Efi). cbn [filter]. tauto.
+  - apply N.eqb_neq in Efi. destruct (F2 Efi) as [F3 F4].
+    rewrite Hmk in H. cbv iota beta in H.
+    destruct (all_attributes _ c st cid f _ out_size _ _ hi) as [[st1 k]|] eqn:Ea; [|discriminate].
+    assert (Hcov0 : cover c ty out_size (mkCol b 2 0 true) [] [] []).
+    { constructor; try (intros y []); auto. }
+    assert (Hinv0 : col_inv (mkCol b 2 0 true) []).
+    { unfold col_inv. cbn [co_cur co_buf co_first co_size]. rewrite seg_nil.
+      split; [lia|]. split; [reflexivity|]. split; [reflexivity|]. split; [intros X; discriminate X|intros x []]. }
+    destruct (aa_cover c cid f out_size hi ty Hw Hn Hreg Ho Hf _ _ _ _ _ _ kk [] [] [] Ea Hk ltac:(lia) Hinv0 ltac:(cbn; lia) ltac:(cbn; lia) Hcov0 ltac:(intros y z [])) as (E & P1 & P2 & I1 & I2 & I3 & I4 & I5).
+    cbn [app co_buf co_cur] in I2, I3, I5. rewrite F4, <- HM in I5.
+    pose proof (col_inv_cur k E I1) as Hcur. destruct I1 as (J1 & J2 & J3 & J4 & J5).
+    destruct (co_cur k =? 2) eqn:E2.
+    + cbn [negb] in H. destruct (error_response 8 err_attribute_not_found lo (co_buf k) out_size) as [r'|] eqn:Ee; [|discriminate].
+      inversion H; subst st' r'. apply error_response_bytes in Ee; auto; [|lia]. left. split; [tauto|]. split; [tauto|].
+      (* nothing collected: every matching attribute was skipped because it cannot be read *)
+      apply N.eqb_eq in E2.
+      assert (HE : E = []).
+      { destruct E as [|x t]; [reflexivity|]. exfalso. rewrite E2 in Hcur. cbn [flat_map] in Hcur. unfold ebytes, le16, len in Hcur.
+        rewrite !app_length in Hcur. cbn [length] in Hcur. lia. }
+      subst E. rewrite (cv_none _ _ _ _ _ _ _ I4 eq_refl) in I5. cbn [app] in I5. rewrite <- I5.
+      unfold none_required. apply forallb_forall. intros y Hy.
+      destruct (cv_skip _ _ _ _ _ _ _ I4 y Hy) as [Hr|[Hff _]]; [rewrite Hr; reflexivity|].
+      destruct (co_first k) eqn:Ef; [discriminate Hff|]. destruct (J4 eq_refl) as [X _]. congruence.
+    + cbn [negb] in H. apply N.eqb_neq in E2.
+      destruct (put (co_buf k) 0 [9; co_size k]) as [b1|] eqn:Ep; [|discriminate].
+      apply AttSrvProofsC01.some_inj in H. apply AttSrvProofsC01.pair_inj in H. destruct H as [<- <-].
+      cbn [fst snd]. pose proof (put_length _ _ _ _ Ep) as Lp.
+      rewrite N.mod_small by lia. replace (2 + (co_cur k - 2)) with (co_cur k) by lia.
+      right. exists E, (co_size k).
+      assert (HE : E <> []) by (intros ->; cbn in Hcur; lia).
+      set (hs := map fst E) in *. set (cnt := last hs 0) in *.
+      assert (Hex : exact_ok (readable c) P1 hs = true) by apply (cv_exact _ _ _ _ _ _ _ I4).
+      assert (HinM : forall y, In y (P1 ++ P2) -> In y (M lo)) by (intros y Hy; rewrite <- I5; exact Hy).
+      assert (Hhs : forall h, In h hs -> exists y, In y P1 /\ fst y = h).
+      { intros h Hh. pose proof (exact_ok_handles _ _ _ Hex h Hh) as X. apply in_map_iff in X. destruct X as [y [X1 X2]]. exists y. auto. }
+      assert (HP2 : M (cnt + 1) = P2).
+      { unfold M. rewrite (matching_narrow c (KType ty) lo hi (cnt + 1)).
+        - fold (M lo). rewrite <- I5, filter_app.
+          rewrite (filter_all_false _ P1), (filter_all_true _ P2); [reflexivity| |].
+          + intros y Hy. pose proof (cv_high _ _ _ _ _ _ _ I4 y Hy). fold hs cnt in H. lia.
+          + intros y Hy. pose proof (cv_low _ _ _ _ _ _ _ I4 y Hy). fold hs cnt in H. lia.
+        - assert (In cnt hs) by (apply last_in; unfold hs; destruct E; [congruence|discriminate]).
+          destruct (Hhs _ H) as [y [Y1 Y2]]. destruct (matching_sound _ _ _ _ _ (HinM y ltac:(apply in_or_app; left; exact Y1))) as (_ & T2 & _).
+          unfold in_range in T2. lia. }
+      split; [exact HE|]. split.
+      { intros x Hx. split; [apply J5; exact Hx|].
+        destruct (Hhs (fst x) ltac:(apply in_map; exact Hx)) as [y [Y1 Y2]]. rewrite <- Y2.
+        destruct (cv_table _ _ _ _ _ _ _ I4 y ltac:(apply in_or_app; left; exact Y1)) as [T1 _].
+        apply (assign_upper c _ Hw Hn). rewrite <- (table_handles c Hw Hn). apply in_map. exact T1. }
+      split; [lia|]. split.
+      { rewrite (seg_app 0 2) by lia. rewrite (seg_put_other _ _ _ _ 2 (co_cur k) Ep) by (unfold len; cbn; lia).
+        rewrite J2. pose proof (seg_put_self _ _ _ _ Ep) as X. change (0 + len [9; co_size k]) with 2 in X. rewrite X. reflexivity. }
+      split.
+      { (* the judgement of the entries *)
+        assert (Hmh : map entry_handle (map ehandle E) = hs) by (rewrite map_map; reflexivity).
+        unfold judge_entries. cbv zeta. rewrite Hmh.
+        assert (Hnemp : match map ehandle E with [] => true | _ :: _ => false end = false) by (destruct E; [congruence|reflexivity]).
+        rewrite Hnemp.
+        replace (forallb (in_range lo hi) hs) with true.
+        2:{ symmetry. apply forallb_forall. intros h Hh. destruct (Hhs h Hh) as [y [Y1 <-]].
+            destruct (matching_sound _ _ _ _ _ (HinM y ltac:(apply in_or_app; left; exact Y1))) as (_ & T2 & _). exact T2. }
+        cbn [negb].
+        replace (forallb (entry_matches c (KType ty)) (map ehandle E)) with true.
+        2:{ symmetry. apply forallb_forall. intros en Hen. apply in_map_iff in Hen. destruct Hen as [x [<- Hx]].
+            destruct (Hhs (fst x) ltac:(apply in_map; exact Hx)) as [y [Y1 Y2]].
+            destruct (cv_table _ _ _ _ _ _ _ I4 y ltac:(apply in_or_app; left; exact Y1)) as [T1 T3].
+            unfold entry_matches, ehandle. cbn [entry_handle]. apply existsb_exists. exists y. split; [exact T1|].
+            rewrite Y2, N.eqb_refl, T3. reflexivity. }
+        cbn [negb].
+        assert (Hsorted : increasing_from 0 hs = true).
+        { apply (subseq_increasing 0 _ (map fst P1)); [apply (exact_ok_subseq _ _ _ Hex)|].
+          assert (X : increasing_from 0 (map fst (P1 ++ P2)) = true) by (rewrite I5; apply matching_sorted; auto).
+          rewrite map_app in X. apply increasing_from_app in X. tauto. }
+        rewrite (ascending_of_increasing 0) by exact Hsorted. cbn [negb].
+        fold (M lo). rewrite <- I5. rewrite (run_ok_of_exact _ _ _ _ Hex). reflexivity. }
+      split.
+      { intros hs' X. rewrite HP2 in X. rewrite <- I5. rewrite exact_ok_app; [exact X|exact Hex|].
+        intros y h Hy Hh. pose proof (exact_ok_handles _ _ _ X h Hh) as Z. apply in_map_iff in Z. destruct Z as [z [Z1 Z2]].
+        pose proof (cv_low _ _ _ _ _ _ _ I4 y Hy). pose proof (cv_high _ _ _ _ _ _ _ I4 z Z2). fold hs cnt in H, H0. lia. }
+      intros Ee. rewrite HP2. destruct P2 as [|z P2']; [reflexivity|exfalso].
+      pose proof (cv_high _ _ _ _ _ _ _ I4 z ltac:(left; reflexivity)) as Z1. fold hs cnt in Z1.
+      destruct (matching_sound _ _ _ _ _ (HinM z ltac:(apply in_or_app; right; left; reflexivity))) as (T1 & T2 & _).
+      unfold in_range in T2.
+      assert (fst z < 65536) by (apply (assign_upper c _ Hw Hn); rewrite <- (table_handles c Hw Hn); apply in_map; exact T1). lia.
+Qed.
+
+(* the configurations on which neither skip finding can occur, and the 8 bit size counter cannot cut a response *)
+Definition c02_regular (c : cfg) : bool := all_16bit c && rbt_regular c && (max_mtu c <=? 257).
+
+(* Read By Type for the internal marker 0x0001 is not covered *)
+Definition no_marker_type (o : srv_op) : bool :=
+  match o with
+  | OpIn _ (8 :: _ :: _ :: _ :: _ :: t) _ =>
+      match req_type t with Some u => negb (uuid_eqb u (U16 internal_128bit_uuid)) | None => true end
+  | _ => true
+  end.
+
+Lemma c02_type_step c st m cid a b x y t u n st' resp :
+  wf c -> no_includes c -> rbt_regular c = true -> max_mtu c <= 257 -> mon_inv c m ->
+  a < 256 -> b < 256 -> x < 256 -> y < 256 ->
+  req_type t = Some u -> u <> U16 internal_128bit_uuid ->
+  att_input c st cid (8 :: a :: b :: x :: y :: t) n = Some (st', resp) ->
+  exists m',
+    (if (w16 a b =? 0) || (w16 x y <? w16 a b) then (judge_invalid_range (w16 a b) (parse_resp 8 resp), upd m cid None)
+     else session_step m cid (KType u) (w16 a b) (w16 x y) (parse_resp 8 resp) (judge_entries c (KType u) (w16 a b) (w16 x y))
+            (fun l => matching c (KType u) l (w16 x y)) (required c (KType u)) dt_not_found dt_enumerate) = (Ok, m')
+    /\ mon_inv c m'.
+Proof.
+  intros Hw Hn Hreg Hmtu Hm Ha Hb Hx Hy Hty Hne Hin.
+  apply att_input_8 in Hin. destruct Hin as (k & b' & nn & Hk & Hout & Hh & Hnn & ->).
+  set (out_size := N.min n (negotiated_mtu c k)) in *.
+  assert (Hlb : out_size <= len (repeat fill_byte (N.to_nat n))) by (rewrite len_repeat_N; unfold out_size; lia).
+  assert (Ho2 : out_size <= 257) by (unfold out_size, negotiated_mtu; lia).
+  rewrite takeN_seg by exact Hnn.
+  destruct ((w16 a b =? 0) || (w16 x y <? w16 a b)) eqn:Er.
+  - destruct (make_filter_spec a b x y t u Hty Hne) as (Hlen & _). cbv zeta in Hlen.
+    destruct (rd_prefix5 8 a b x y t) as (R0 & R1 & R3). cbv zeta in R0, R1, R3. fold (w16 a b) in R1. fold (w16 x y) in R3.
+    unfold handle_read_by_type in Hh.
+    rewrite (check_range_invalid c _ _ out_size 7 21 8 (w16 a b) (w16 x y) R0 Hlen R1 R3 Er) in Hh.
+    destruct (error_response 8 err_invalid_handle (w16 a b) _ out_size) as [r|] eqn:Ee; [|discriminate Hh].
+    inversion Hh; subst r. apply error_response_bytes in Ee; auto; [|lia]. cbn [fst snd] in Ee. destruct Ee as (E1 & E2 & _).
+    subst nn. rewrite E2, parse_error_response. cbn [judge_invalid_range]. rewrite N.eqb_refl. cbn.
+    eexists. split; [reflexivity|]. apply mon_inv_upd_none; auto.
+  - assert (Hlo : 1 <= w16 a b) by lia. assert (Hhi : w16 a b <= w16 x y) by lia.
+    pose proof (rbt_answer c st cid k a b x y t u _ out_size st' (b', nn) Hw Hn Hreg Hk Ha Hb Hx Hy Hty Hne Hlo Hhi Hout Ho2 Hlb Hh) as Hans.
+    cbv zeta in Hans. cbn [fst snd] in Hans.
+    apply session_step_inv; auto.
+    destruct Hans as [(E1 & E2 & E3)|(E & sz & A1 & A2 & A3 & A4 & A5 & A6 & A7)].
+    + subst nn. rewrite E2, parse_error_response. split; [reflexivity|exact E3].
+    + rewrite A4. rewrite (parse_rbt_response E sz A1 A2).
+      assert (Hmh : map entry_handle (map ehandle E) = map fst E) by (rewrite map_map; reflexivity).
+      assert (Hme : map entry_end (map ehandle E) = map fst E) by (rewrite map_map; reflexivity).
+      rewrite Hmh, Hme. split; [exact A5|]. split; [exact A6|exact A7].
+Qed.
+
+Lemma c02_step_regular c st m o :
+  wf c -> no_includes c -> c02_regular c = true -> mon_inv c m ->
+  op_bytes o = true -> no_marker_type o = true -> snd (srv_step c st o) <> OFault ->
+  exists m', c02_step c m o (snd (srv_step c st o)) = (Ok, m') /\ mon_inv c m'.
+Proof.
+  intros Hw Hn Hreg Hm Hb Hr Hf. unfold c02_regular in Hreg.
+  apply andb_true_iff in Hreg. destruct Hreg as [Hreg Hmtu]. apply andb_true_iff in Hreg. destruct Hreg as [H16 Hrbt].
+  destruct o as [cid pdu n| | |cid| | |]; cbn [c02_step]; try (eexists; split; [reflexivity|exact Hm]).
+  - destruct (n <? default_att_mtu); [eexists; split; [reflexivity|exact Hm]|].
+    destruct (parse_req pdu) as [[[[op k] lo] hi]|] eqn:Ep; [|eexists; split; [reflexivity|exact Hm]].
+    cbn [srv_step] in *. destruct (att_input c st cid pdu n) as [[st' resp]|] eqn:Ein; [|exfalso; apply Hf; reflexivity].
+    cbn [snd]. destruct (parse_req_inv pdu op k lo hi Ep) as (a & b & x & y & t & -> & -> & -> & Hcase).
+    cbn [op_bytes forallb] in Hb. unfold byte_ok in Hb.
+    destruct Hcase as [(-> & -> & ->)|[(-> & -> & ->)|(-> & u & -> & Hty)]].
+    + apply (c02_info_step_inv c st m cid a b x y n st' resp); auto; lia.
+    + apply (c02_group_step_inv c st m cid a b x y n st' resp); auto; lia.
+    + cbn [no_marker_type] in Hr. rewrite Hty in Hr.
+      assert (Hne : u <> U16 internal_128bit_uuid) by (intros ->; rewrite uuid_eqb_refl in Hr; discriminate Hr).
+      repeat (apply andb_true_iff in Hb; destruct Hb as [? Hb]).
+      apply (c02_type_step c st m cid a b x y t u n st' resp); auto; lia.
+  - eexists. split; [reflexivity|]. apply mon_inv_upd_none; auto.
+Qed.
+
+Theorem c02_monitor_accepts_regular c : wf c -> no_includes c -> c02_regular c = true ->
+  forall ops st m pos,
+    mon_inv c m -> forallb op_bytes ops = true -> forallb no_marker_type ops = true ->
+    Forall (fun p => snd p <> OFault) (srv_run c st ops) ->
+    c02_monitor_from c m pos (srv_run c st ops) = None.
+Proof.
+  intros Hw Hn Hu. induction ops as [|o t IH]; intros st m pos Hm Hb Hr Hf; [reflexivity|].
+  cbn [forallb] in Hb, Hr. apply andb_true_iff in Hb. destruct Hb as [Hb1 Hb2]. apply andb_true_iff in Hr. destruct Hr as [Hr1 Hr2].
+  pose proof (c02_step_regular c st m o Hw Hn Hu Hm Hb1 Hr1) as Hstep.
+  cbn [srv_run] in *. destruct (srv_step c st o) as [st' out] eqn:Es. cbn [snd] in Hstep.
+  inversion Hf as [|? ? Hf1 Hf2]; subst. cbn [snd] in Hf1.
+  destruct (Hstep Hf1) as (m' & E & Hm'). cbn [c02_monitor_from]. rewrite E. apply IH; auto.
+Qed.
